@@ -131,7 +131,7 @@ def ops_only(rec):
     return {k: v for k, v in rec.items() if k not in ("state", "msgs", "pred", "stack")}
 
 
-def run(prop, checks_prefix, runs, tier, seed, kf_all, need, max_replays=5, extra_ops=None):
+def run(prop, checks_prefix, runs, tier, seed, kf_all, need, max_replays=5, extra_ops=None, gen=None):
     """runs: list of dicts(profile, traces, steps, procs). extra_ops: list of NDJSON op files (TLC generated tests).
     Returns dict with violations (replay paths), kf lines, coverage pieces."""
     t0 = time.time()
@@ -143,6 +143,10 @@ def run(prop, checks_prefix, runs, tier, seed, kf_all, need, max_replays=5, extr
             for i in range(r.get("procs", 1)):
                 s = seed * 1000 + len(jobs)
                 jobs.append(dict(r, seed=s, name="t-%s-%d.ndjson" % (r["profile"], len(jobs))))
+        model = None
+        if gen:
+            model = gen(work)
+            extra_ops = (extra_ops or []) + model["ops_files"]
         for j, f in enumerate(extra_ops or []):
             jobs.append(dict(profile="tlc-generated", ops=f, seed=seed, name="t-gen-%d.ndjson" % j, traces=0, steps=0))
 
@@ -238,7 +242,7 @@ def run(prop, checks_prefix, runs, tier, seed, kf_all, need, max_replays=5, extr
                                "note": "trace = the behaviour the real core produced (ops, messages, projected state), first line is the reset; the check failed at failing_step",
                                "trace": [json.loads(x) for x in tf.lines[a - 1:ln]]}, open(rp, "w"))
                     violations.append(rp)
-        return dict(crashes=crash_replays, violations=violations, failing_checks=dict(failing_checks), kf_obs=dict(kf_obs), counters=dict(tot), traces=ntraces, steps=nsteps,
+        return dict(model=model, crashes=crash_replays, violations=violations, failing_checks=dict(failing_checks), kf_obs=dict(kf_obs), counters=dict(tot), traces=ntraces, steps=nsteps,
                     nontrivial=len(nontrivial), samples=samples, wall=time.time() - t0, other_checks_failing=dict(all_checks_failed))
     finally:
         if not os.environ.get("VERIF_KEEP"):
